@@ -11,6 +11,8 @@
 //!      | 10 c m sz at sim start module c calls `m.spawner().gate(name, sz)` (m = c: on itself; m = c+4: on its
 //!                  child via `current().child(..)`; else through a held ModuleRef): sz new gates owned by m
 //!      | 11 c a b l br  at sim start module c calls a.connect(b, channel)
+//!      | 12 a b l br q / 13 c a b l br q  as 9 / 11 with drop behaviour q: 0 Drop, 1 Queue(None), q >= 2 Queue(Some(q-2))
+//!      | 14 m      m != 0: arrival times are printed as 0 (scripts in which messages wait in channel queues)
 //! Modules 0..3 are top-level ("m0".."m3"), module i >= 4 is the child "m{i-4}.c{i}".  Build-time operations
 //! (1-5, 9) run first, in order; the run-time ones (6-8, 10, 11) run in order inside at_sim_start (one start-up
 //! stage per spawn / run-time connect, sends in the last stage); records come out in that order; spawn -> 16.
@@ -20,7 +22,7 @@
 //!   11 k leg receiving-module now-ns sender-module receiver-module last_gate+1|0
 //!   12 k leg 3  (send/send_at panicked: transit gate)
 //! or the single number 10 when some gate mutex is poisoned (the simulation is not run),
-//! and a trailing 13 if `run()` returned an error.
+//! and a trailing 13 if `run()` returned an error, 18 if events were left when the event budget (50000) ran out.
 use des::net::gate::GateKind;
 use des::net::module::ModuleId;
 use des::prelude::*;
@@ -64,7 +66,7 @@ fn run_line(nums: &[u64]) -> Vec<u64> {
 #[derive(Clone)]
 enum Stage {
     Spawn { rt: usize, caller: u64, target: u64, size: usize },
-    Conn { rt: usize, caller: u64, a: usize, b: usize, l: u64, br: u64 },
+    Conn { rt: usize, caller: u64, a: usize, b: usize, l: u64, br: u64, q: u64 },
 }
 
 #[derive(Default)]
@@ -107,7 +109,7 @@ fn mod_path(i: u64) -> String {
     }
 }
 
-fn mk_channel(l: u64, br: u64) -> Option<ChannelRef> {
+fn mk_channel(l: u64, br: u64, q: u64) -> Option<ChannelRef> {
     if l == 0 {
         None
     } else {
@@ -115,13 +117,17 @@ fn mk_channel(l: u64, br: u64) -> Option<ChannelRef> {
             bitrate: br as usize,
             latency: Duration::from_nanos(l - 1),
             jitter: Duration::ZERO,
-            drop_behaviour: ChannelDropBehaviour::Drop,
+            drop_behaviour: match q {
+                0 => ChannelDropBehaviour::Drop,
+                1 => ChannelDropBehaviour::Queue(None),
+                _ => ChannelDropBehaviour::Queue(Some(q as usize - 2)),
+            },
         }))
     }
 }
 
-fn do_connect(ga: GateRef, gb: GateRef, l: u64, br: u64) -> Vec<u64> {
-    let ch = mk_channel(l, br);
+fn do_connect(ga: GateRef, gb: GateRef, l: u64, br: u64, q: u64) -> Vec<u64> {
+    let ch = mk_channel(l, br, q);
     match catch_unwind(AssertUnwindSafe(move || ga.connect(gb, ch))) {
         Ok(()) => vec![1],
         Err(e) => vec![9, site(&e, 5)],
@@ -182,7 +188,7 @@ impl Node {
                 }
                 sh.rt_out[rt] = vec![16];
             }
-            Stage::Conn { rt, caller, a, b, l, br } => {
+            Stage::Conn { rt, caller, a, b, l, br, q } => {
                 if caller != self.idx {
                     return;
                 }
@@ -190,7 +196,7 @@ impl Node {
                     let sh = self.sh.lock().unwrap();
                     (sh.gates[a].clone(), sh.gates[b].clone())
                 };
-                let r = do_connect(ga, gb, l, br);
+                let r = do_connect(ga, gb, l, br, q);
                 self.sh.lock().unwrap().rt_out[rt] = r;
             }
         }
@@ -294,12 +300,13 @@ fn site(e: &Box<dyn std::any::Any + Send>, poison_site: u64) -> u64 {
 }
 
 enum Op {
-    Conn { a: usize, b: usize, l: u64, br: u64 },
+    Conn { a: usize, b: usize, l: u64, br: u64, q: u64 },
     Query { tag: u64, g: usize },
     Send { g: usize, t: u64, d: u64, b: u64 },
     Rule { g: usize, g2: usize, d: u64 },
     Spawn { c: u64, m: u64, sz: usize },
-    RConn { c: u64, a: usize, b: usize, l: u64, br: u64 },
+    RConn { c: u64, a: usize, b: usize, l: u64, br: u64, q: u64 },
+    Mask { m: u64 },
 }
 
 /// bitrates whose transmission time for the 72-byte message is not a whole number of ns are read as 0
@@ -318,8 +325,9 @@ fn parse_ops(cur: &mut Cur, nm: u64) -> Vec<Op> {
         let need = match tag {
             1 | 6 | 7 | 10 => 4,
             8 | 9 => 5,
-            11 => 6,
-            2..=5 => 2,
+            11 | 12 => 6,
+            13 => 7,
+            2..=5 | 14 => 2,
             _ => break,
         };
         if cur.left() < need {
@@ -327,8 +335,16 @@ fn parse_ops(cur: &mut Cur, nm: u64) -> Vec<Op> {
         }
         cur.next();
         ops.push(match tag {
-            1 => Op::Conn { a: cur.next() as usize, b: cur.next() as usize, l: cur.next(), br: 0 },
-            9 => Op::Conn { a: cur.next() as usize, b: cur.next() as usize, l: cur.next(), br: norm_br(cur.next()) },
+            1 => Op::Conn { a: cur.next() as usize, b: cur.next() as usize, l: cur.next(), br: 0, q: 0 },
+            9 => Op::Conn { a: cur.next() as usize, b: cur.next() as usize, l: cur.next(), br: norm_br(cur.next()), q: 0 },
+            12 => Op::Conn {
+                a: cur.next() as usize,
+                b: cur.next() as usize,
+                l: cur.next(),
+                br: norm_br(cur.next()),
+                q: cur.next(),
+            },
+            14 => Op::Mask { m: cur.next() },
             2..=5 => Op::Query { tag, g: cur.next() as usize },
             6 => Op::Send { g: cur.next() as usize, t: cur.next(), d: cur.next(), b: 0 },
             8 => Op::Send { g: cur.next() as usize, t: cur.next(), d: cur.next(), b: cur.next().min(8) },
@@ -340,6 +356,7 @@ fn parse_ops(cur: &mut Cur, nm: u64) -> Vec<Op> {
                 b: cur.next() as usize,
                 l: cur.next(),
                 br: norm_br(cur.next()),
+                q: if tag == 13 { cur.next() } else { 0 },
             },
         });
     }
@@ -395,12 +412,12 @@ fn run_script(nums: &[u64]) -> Vec<u64> {
     // ---- build time: connects and queries, in order
     for op in &ops {
         match *op {
-            Op::Conn { a, b, l, br } => {
+            Op::Conn { a, b, l, br, q } => {
                 if a >= gates.len() || b >= gates.len() {
                     out.push(7);
                     continue;
                 }
-                out.extend(do_connect(gates[a].clone(), gates[b].clone(), l, br));
+                out.extend(do_connect(gates[a].clone(), gates[b].clone(), l, br, q));
             }
             Op::Query { tag, g } => {
                 if g >= gates.len() {
@@ -449,6 +466,7 @@ fn run_script(nums: &[u64]) -> Vec<u64> {
     let mut stages: Vec<Stage> = Vec::new();
     let mut sends: Vec<(usize, u64, u64, u64)> = Vec::new();
     let mut rules: Vec<(usize, usize, u64)> = Vec::new();
+    let mut mask = false;
     for op in &ops {
         match *op {
             Op::Send { g, t, d, b } => {
@@ -464,9 +482,13 @@ fn run_script(nums: &[u64]) -> Vec<u64> {
                 rt_out.push(vec![]);
                 ng += sz;
             }
-            Op::RConn { c, a, b, l, br } => {
+            Op::Mask { m } => {
+                rt_out.push(vec![17]);
+                mask |= m != 0;
+            }
+            Op::RConn { c, a, b, l, br, q } => {
                 if a < ng && b < ng {
-                    stages.push(Stage::Conn { rt: rt_out.len(), caller: c, a, b, l, br });
+                    stages.push(Stage::Conn { rt: rt_out.len(), caller: c, a, b, l, br, q });
                     rt_out.push(vec![]);
                 } else {
                     rt_out.push(vec![7]);
@@ -492,7 +514,9 @@ fn run_script(nums: &[u64]) -> Vec<u64> {
         s.rt_out = rt_out;
     }
 
-    let rt = Builder::seeded(1).quiet().build(sim.freeze());
+    // a message that never arrives (bouncing between gates) must not hang the runner: bound the number of events;
+    // scripts need a few hundred at most
+    let rt = Builder::seeded(1).quiet().max_itr(50_000).build(sim.freeze());
     let res = catch_unwind(AssertUnwindSafe(|| rt.run()));
     // the runtime installs and removes its own panic hook
     std::panic::set_hook(Box::new(|_| {}));
@@ -510,11 +534,22 @@ fn run_script(nums: &[u64]) -> Vec<u64> {
             out.push(r[2]);
             out.push(r[0]);
             out.push(r[1]);
+            if mask && r[2] == 11 {
+                // a delivery: [.., module, now, sender, receiver, last]; the time is not reported
+                out.push(r[3]);
+                out.push(0);
+                out.extend(&r[5..]);
+                continue;
+            }
             out.extend(&r[3..]);
         }
     }
     match res {
-        Ok(Ok(_)) => {}
+        Ok(Ok((_, _, prof))) => {
+            if !prof.remaining.is_empty() {
+                out.push(18); // event budget exhausted: some message is still travelling
+            }
+        }
         Ok(Err(_)) => out.push(13),
         Err(_) => out.push(666),
     }
